@@ -125,6 +125,8 @@ def obligations(ctx):
     ob.finish(E)
     utxo_stat_totals(ctx)
     witness_size_tracking(ctx)
+    build_loop(ctx)
+    create_tx_inputs(ctx)
 
 
 def utxo_stat_totals(ctx):
@@ -238,3 +240,181 @@ def witness_size_tracking(ctx):
     if nret < 2:
         ob.fail("expected paths with and without keys counted before, saw %d" % nret)
     ob.finish(E)
+
+
+def build_loop(ctx):
+    """'The transactions together spend every supplied UTxO': TxBatchBuilder::build is executed from MIR with the grouping state
+    abstract.  The free-UTxO state changes only inside try_append_next_utxos (the one &mut self callee): has_assets / has_ada are
+    uninterpreted predicates of a state version that advances at every such call.  Decided: build returns Ok only when the loop
+    was left through its condition — neither asset-carrying nor pure-ADA UTxOs remain in the FINAL state —, every proposal that
+    was closed is turned into exactly one transaction, in order, and nothing else is put into the batch."""
+    P = ctx.P
+    ob = Obligation(ctx, "c13_e2_build_returns_only_when_nothing_is_left", "0..3 proposals x 0..2 extensions each; every outcome of the extension step, of the min-ADA / last-ADA steps and of create_tx arbitrary; "
+                    "remaining-UTxO predicates arbitrary functions of the grouping state", ["TxBatchBuilder::build"], fallback_native="e2n_c13_spend_all")
+    E = Engine(P, max_loop=3)
+    ha = z3.Function("has_assets_at", z3.IntSort(), z3.BoolSort())
+    hd = z3.Function("has_ada_at", z3.IntSort(), z3.BoolSort())
+    def ver(E_):
+        return sum(1 for t in E_.trace if t[0] == "append")
+    def has(fn):
+        def f(E_, c, a):
+            v = fn(z3.IntVal(ver(E_)))
+            return VBool(z3.BoolVal(True)) if E_.choose([v, z3.Not(v)], "remaining") == 0 else VBool(z3.BoolVal(False))
+        return f
+    E.extra_intrinsics[r"AssetCategorizer::has_assets$"] = has(ha)
+    E.extra_intrinsics[r"AssetCategorizer::has_ada$"] = has(hd)
+    def append(E_, c, a):
+        k = ver(E_)
+        E_.trace.append(("append", k))
+        r = E_.fresh("append_outcome")
+        i = E_.choose([r == 0, r == 1, r == 2], "try_append_next_utxos")
+        if i == 2:
+            return VEnum("Result", "Err", [VOpaque("err:append")])
+        if i == 1:
+            return VEnum("Result", "Ok", [VEnum("Option", "None", [])])
+        return VEnum("Result", "Ok", [VEnum("Option", "Some", [VLazy("proposal_v%d" % (k + 1), "TxProposal")])])
+    E.extra_intrinsics[r"AssetCategorizer::try_append_next_utxos$"] = append
+    def new_prop(E_, c, a):
+        n = sum(1 for t in E_.trace if t[0] == "new")
+        E_.trace.append(("new", n))
+        return VLazy("empty_proposal_%d" % n, "TxProposal")
+    E.extra_intrinsics[r"TxProposal::new$"] = new_prop
+    def is_empty(E_, c, a):
+        p = VM.deref(E_, a[0])
+        if isinstance(p, VLazy) and p.path.startswith("empty_proposal"):
+            return VBool(z3.BoolVal(True))
+        e = E_.fresh("extended_proposal_is_empty", "bool")      # an extension step may (wrongly) hand back an empty proposal: arbitrary
+        return VBool(z3.BoolVal(True)) if E_.choose([e, z3.Not(e)], "is_empty") == 0 else VBool(z3.BoolVal(False))
+    E.extra_intrinsics[r"TxProposal::is_empty$"] = is_empty
+    def step(tag):
+        def f(E_, c, a):
+            g = E_.fresh(tag + "_ok", "bool")
+            if E_.choose([g, z3.Not(g)], tag) == 1:
+                return VEnum("Result", "Err", [VOpaque("err:" + tag)])
+            E_.trace.append((tag, VM.deref(E_, a[1] if tag == "set_min_ada" else a[0]).path))
+            return VEnum("Result", "Ok", [UNIT if tag != "set_min_ada" else VInt(z3.IntVal(0), "usize")])
+        return f
+    E.extra_intrinsics[r"TxProposal::add_last_ada_to_last_output$"] = step("last_ada")
+    E.extra_intrinsics[r"AssetCategorizer::set_min_ada_for_tx$"] = step("set_min_ada")
+    def create(E_, c, a):
+        p = VM.deref(E_, a[0])
+        g = E_.fresh("create_ok", "bool")
+        if E_.choose([g, z3.Not(g)], "create_tx") == 1:
+            return VEnum("Result", "Err", [VOpaque("err:create")])
+        E_.trace.append(("create", p.path if isinstance(p, VLazy) else repr(p)))
+        return VEnum("Result", "Ok", [VLazy("tx_of_" + (p.path if isinstance(p, VLazy) else "?"), "Transaction")])
+    E.extra_intrinsics[r"TxProposal::create_tx$"] = create
+    def mk():
+        me = E.mk_struct("TxBatchBuilder", asset_groups=VLazy("groups", "AssetCategorizer"), tx_proposals=VSeq([], "vec"))
+        return [R(me, "self"), R(VLazy("utxos", "TransactionUnspentOutputs"), "utxos")]
+    nok, sizes = 0, set()
+    for o in E.explore("TxBatchBuilder::build", mk, max_paths=20000):
+        if o.kind == "bound":
+            continue
+        if o.kind != "return":
+            ob.vc("no panic in build (%s %s)" % (o.kind, o.msg[:80]), o.pc, z3.BoolVal(False)); continue
+        if o.value.variant != "Ok":
+            continue
+        nok += 1
+        E.enter(o)
+        final = z3.IntVal(sum(1 for t in o.trace if t[0] == "append"))
+        ob.vc("Ok => no asset-carrying and no pure-ADA UTxO remains in the final grouping state", o.pc, z3.And(z3.Not(ha(final)), z3.Not(hd(final))))
+        closed = [t[1] for t in o.trace if t[0] == "set_min_ada"]
+        created = [t[1] for t in o.trace if t[0] == "create"]
+        sizes.add(len(created))
+        if closed != created:
+            ob.violation("proposals closed %s, transactions created from %s" % (closed, created))
+        batch = VM.deref(E, o.value.fields[0])
+        txs = VM.deref(E, batch.fields[P.struct_fields["TransactionBatch"].index("transactions")])
+        got = [VM.deref(E, x).path if isinstance(VM.deref(E, x), VLazy) else repr(x) for x in txs.items]
+        if got != ["tx_of_" + c for c in created]:
+            ob.violation("the batch holds %s, created were %s" % (got, created))
+        # every proposal that was closed is the LAST extension of its round (or the round's empty start)
+        last = [t[1] for t in o.trace if t[0] == "last_ada"]
+        if last != closed:
+            ob.violation("leftover ADA added to %s, proposals closed %s" % (last, closed))
+    if nok == 0 or not ({0, 1, 2} <= sizes):
+        ob.fail("expected Ok outcomes with 0, 1 and 2 transactions, saw %s" % sorted(sizes))
+    ob.finish(E)
+
+
+def create_tx_inputs(ctx):
+    """TxProposal::create_tx: the transaction's inputs are the supplied UTxOs at exactly the indices the proposal recorded as
+    used — each once, nothing else —, its outputs are the proposal's outputs in order, its fee the proposal's fee."""
+    P = ctx.P
+    ob = Obligation(ctx, "c13_e2_create_tx_spends_the_recorded_utxos", "0..3 recorded UTxO indices (arbitrary, pairwise distinct), 0..2 output proposals; output construction arbitrary (may fail)",
+                    ["TxProposal::create_tx"], fallback_native="e2n_c13_spend_all")
+    agg = Engine(P)
+    for nused in (0, 1, 2, 3):
+        for nout in (0, 1, 2):
+            E = Engine(P, max_loop=5)
+            E.U = agg.U
+            idx = [E.sym_int("used_index%d" % j, "usize") for j in range(nused)]
+            for a in range(nused):
+                for b in range(a):
+                    E.assume(idx[a].t != idx[b].t)
+            U = E.U
+            utxo_input = z3.Function("input_of_supplied_utxo", z3.IntSort(), U)
+            def index(E_, c, a):
+                i = VM.deref(E_, a[1])
+                base = VM.deref(E_, a[0])
+                if isinstance(i, VInt) and isinstance(base, VLazy) and base.path.startswith("utxos"):
+                    E_.trace.append(("index", i.t))
+                    return R(E_.mk_struct("TransactionUnspentOutput", input=VOpaque("input_at", [], utxo_input(i.t)), output=VLazy("some_output", "TransactionOutput")))
+                return NotImplemented
+            E.extra_intrinsics[r"Index<usize>>::index$"] = index
+            def co(E_, c, a):
+                g = E_.fresh("create_output_ok", "bool")
+                if E_.choose([g, z3.Not(g)], "create_output") == 1:
+                    return VEnum("Result", "Err", [VOpaque("err")])
+                p = VM.deref(E_, a[0])
+                E_.trace.append(("out", p.path if isinstance(p, VLazy) else repr(p)))
+                return VEnum("Result", "Ok", [VLazy("output_of_" + (p.path if isinstance(p, VLazy) else "?"), "TransactionOutput")])
+            E.extra_intrinsics[r"TxOutputProposal::create_output$"] = co
+            def from_vec(E_, c, a):
+                v = VM.deref(E_, a[0])
+                E_.trace.append(("inputs", [E_.as_u(VM.deref(E_, x)) for x in v.items]))
+                return VLazy("tx_inputs", "TransactionInputs")
+            E.extra_intrinsics[r"TransactionInputs::from_vec$"] = from_vec
+            def body_new(E_, c, a):
+                outs = VM.deref(E_, a[1])
+                items = VM.deref(E_, outs.fields[0]).items if isinstance(outs, VStruct) else None
+                E_.trace.append(("body", VM.deref(E_, a[0]), [VM.deref(E_, x).path if isinstance(VM.deref(E_, x), VLazy) else repr(x) for x in items] if items is not None else None, VM.deref(E_, a[2])))
+                return VLazy("body", "TransactionBody")
+            E.extra_intrinsics[r"TransactionBody::new$"] = body_new
+            E.extra_intrinsics[r"WitnessesCalculator::create_mock_witnesses_set$"] = lambda E_, c, a: VLazy("mock_ws", "TransactionWitnessSet")
+            E.extra_intrinsics[r"Transaction::new$"] = lambda E_, c, a: (E_.trace.append(("tx", VM.deref(E_, a[0]))), VLazy("tx", "Transaction"))[1]
+            def mk(E=E, idx=idx, nout=nout):
+                used = VSeq([E.mk_struct("UtxoIndex") if False else VStruct("UtxoIndex", [VInt(i.t, "usize")]) for i in idx], "set")
+                me = E.mk_struct("TxProposal", used_utoxs=used, tx_output_proposals=VSeq([VLazy("outprop%d" % j, "TxOutputProposal") for j in range(nout)], "vec"), fee=VM.bn(E.sym_int("fee", "u64")))
+                return [R(me, "self"), R(VLazy("groups", "AssetCategorizer")), R(VLazy("utxos", "TransactionUnspentOutputs"))]
+            nok = 0
+            for o in E.explore("TxProposal::create_tx", mk, max_paths=2000):
+                if o.kind != "return":
+                    ob.vc("no panic (%s %s)" % (o.kind, o.msg[:80]), o.pc, z3.BoolVal(False)); continue
+                if o.value.variant != "Ok":
+                    continue
+                nok += 1
+                E.enter(o)
+                ins = [t[1] for t in o.trace if t[0] == "inputs"]
+                bodies = [t for t in o.trace if t[0] == "body"]
+                if len(ins) != 1 or len(bodies) != 1:
+                    ob.fail("inputs / body not built exactly once"); continue
+                got = ins[0]
+                if len(got) != nused:
+                    ob.violation("%d UTxOs recorded as used, the transaction has %d inputs" % (nused, len(got))); continue
+                want = [utxo_input(i.t) for i in idx]
+                # as multisets: every recorded index contributes its input exactly once
+                perm_ok = z3.Or([z3.And([g == w for g, w in zip(got, p)]) for p in __import__("itertools").permutations(want)]) if nused else z3.BoolVal(True)
+                ob.vc("%d recorded UTxOs: the inputs are exactly the supplied inputs at the recorded indices" % nused, o.pc, perm_ok)
+                _, bi, bo, bf = bodies[0]
+                if not (isinstance(bi, VLazy) and bi.path == "tx_inputs"):
+                    ob.violation("the body does not carry the inputs built from the recorded UTxOs")
+                if bo != ["output_of_outprop%d" % j for j in range(nout)]:
+                    ob.violation("the body's outputs %s are not the proposal's outputs in order" % bo)
+                ob.vc("the body's fee is the proposal's fee", o.pc, bf.fields[0].t == z3.Int("fee"))
+            if nok == 0:
+                ob.fail("no Ok path (%d used, %d outputs)" % (nused, nout))
+            agg.stats["paths"] += E.stats["paths"]; agg.stats["feasibility_queries"] += E.stats["feasibility_queries"]; agg.stats["functions"] |= E.stats["functions"]
+    ob.cross_every = 4
+    ob.finish(agg)
